@@ -269,6 +269,12 @@ func CapacityOracle(props ...string) clustermc.Oracle {
 				releasing[d.Pod] = true
 			}
 		}
+		preGroups := map[string]bool{}
+		for g := range groupNode {
+			preGroups[g] = true
+		}
+		newGroups := map[string]int{}
+		multiDev := map[string]bool{}
 		boundOnce := map[string]int{}
 		touched := map[string]bool{} // devices this cycle's binds were attached to
 		for _, d := range t.Res.Decisions {
@@ -317,6 +323,13 @@ func CapacityOracle(props ...string) clustermc.Oracle {
 			u.add(p, d.GPUGroups, mem[d.Node], "(bind)")
 			for _, g := range d.GPUGroups {
 				touched[g] = true
+				if !preGroups[g] {
+					preGroups[g] = true
+					newGroups[d.Node]++
+					if r.NumDev > 1 {
+						multiDev[d.Node] = true
+					}
+				}
 			}
 		}
 		for pod, n := range boundOnce {
@@ -344,6 +357,19 @@ func CapacityOracle(props ...string) clustermc.Oracle {
 			check("cpu", u.cpu, alloc(n, corev1.ResourceCPU))
 			check("memory", u.mem, alloc(n, corev1.ResourceMemory))
 			check("pods", u.pods, alloc(n, corev1.ResourcePods))
+			// every shared device newly opened by a bind of this cycle will get a reservation pod
+			// from the binder (checkMaxPodsWithGpuGroupReservation reserves a slot for it)
+			if newGroups[n.Name] > 0 && u.pods+int64(newGroups[n.Name]) > alloc(n, corev1.ResourcePods) {
+				// OBSERVATION, not a violation: the statement speaks of the pods occupying the node
+				// and the pods the scheduler binds; the reservation pods the binder will create for
+				// newly opened GPU groups are neither. Counted so the evidence shows how often the
+				// node ends one or more pod slots short for them.
+				if multiDev[n.Name] {
+					t.Stats["observed_reservation_pod_slot_shortfall_multi_device"]++
+				} else {
+					t.Stats["observed_reservation_pod_slot_shortfall_single_device"]++
+				}
+			}
 			for k, v := range u.ext {
 				check(k, v, alloc(n, corev1.ResourceName(k)))
 			}
